@@ -1,4 +1,5 @@
-(* C20: model side of `files_sort`. *)
+(* C20: model side of `files_sort`.
+   node = (file "n") | (special "n") | (dir "n" node..) | (link "n" file|special|dangling|loop) | (link "n" (dir node..)) *)
 open Sexp
 open Conv
 open M.Files
@@ -7,12 +8,20 @@ let rec node = function
   | L [ A "file"; n ] -> File (str n)
   | L [ A "special"; n ] -> Special (str n)
   | L (A "dir" :: n :: cs) -> Dir (str n, List.map node cs)
+  | L [ A "link"; n; A "file" ] -> Link (str n, LFile)
+  | L [ A "link"; n; A "special" ] -> Link (str n, LSpecial)
+  | L [ A "link"; n; A "dangling" ] -> Link (str n, LDangling)
+  | L [ A "link"; n; A "loop" ] -> Link (str n, LLoop)
+  | L [ A "link"; n; L (A "dir" :: cs) ] -> LinkDir (str n, List.map node cs)
   | e -> bad "node: %s" (to_string e)
 
 let paths l = L (List.map of_str l)
 let files_sort e =
   let args = list_of node e in
-  let f = sort args in
+  match sort args with
+  | WErr (EIo p) -> L [ A "err"; L [ A "io"; of_str p ] ]
+  | WErr (ELoop p) -> L [ A "err"; L [ A "loop"; of_str p ] ]
+  | WOk f ->
   let o = of_opt of_str in
   let spec = match specification f with
     | None -> L [ A "none" ]
